@@ -229,7 +229,11 @@ def run(rep, tier, rng):
             intern = ser.Interner()
             t0 = ser.node_term(tree, intern)
             items_dc.append(f'({t0}, {ser.node_term(copy.deepcopy(tree), intern)})')
-            items_pk.append(f'({t0}, {ser.node_term(pickle.loads(pickle.dumps(tree)), intern)})')
+            nodes = tree_paths(tree)
+            if any(stale_inherited(nodes, p) for p in nodes):
+                rep.count('pickle correspondence: tree with stale inherited flags (a function node is rebuilt through its constructor: not judged against "pickle = identity")')
+            else:
+                items_pk.append(f'({t0}, {ser.node_term(pickle.loads(pickle.dumps(tree)), intern)})')
         except (ValueError, ser.Inconsistent):
             continue
         case = dict(texts=texts, merged=bool(i % 2))
